@@ -24,6 +24,7 @@ type c18World struct {
 	inStream bool
 	closeReturned bool
 	afterClose    int // messages delivered after Close returned
+	sig           chan bool
 	bad      bool
 }
 
@@ -172,4 +173,80 @@ func VerifC18_KeepsResubscribing(h *zz.H) {
 	h.Assert(w.budget == 0, "C18: a client that has not been closed keeps resubscribing after every failure")
 	h.Assert(news == w.disc+1, "C18: a new attempt follows every ended attempt")
 	h.Assert(w.reset == w.disc, "C18: reset before each retry")
+}
+
+// c18Buffered is a transport with a receive buffer: the messages it has already buffered are still
+// returned by Recv after Close (as a gRPC stream's receive buffer does) - which is why the read
+// loop has to look at its own closed flag after every message.
+type c18Buffered struct {
+	w        *c18World
+	handler  NotificationHandler
+	buffered int
+	closed   chan struct{}
+	mu       sync.Mutex
+	first    bool
+}
+
+func (i *c18Buffered) Subscribe(ctx context.Context, q Query) error {
+	i.handler = q.NotificationHandler
+	return nil
+}
+func (i *c18Buffered) Poll() error { return nil }
+func (i *c18Buffered) Close() error {
+	i.mu.Lock()
+	defer i.mu.Unlock()
+	select {
+	case <-i.closed:
+	default:
+		close(i.closed)
+	}
+	return nil
+}
+func (i *c18Buffered) Recv() error {
+	if !i.first {
+		i.first = true
+		select {
+		case i.w.sig <- true: // the stream is up (the client holds its transport from here on)
+		default:
+		}
+		return i.handler(Connected{})
+	}
+	if i.buffered > 0 {
+		i.buffered--
+		i.w.seq++
+		return i.handler(Update{Path: Path{"x"}, Val: i.w.seq})
+	}
+	<-i.closed // nothing buffered: the stream is silent until it is closed
+	return errors.New("transport closed")
+}
+
+// VerifC18_BaseCloseStops: BaseClient.Subscribe with a query of every type on a transport that has
+// B messages buffered, Close issued by another goroutine at any moment: Subscribe returns, and
+// after Close has returned at most the notifications of one further received message are delivered.
+func VerifC18_BaseCloseStops(h *zz.H) {
+	w := &c18World{h: h}
+	impl := &c18Buffered{w: w, buffered: h.Param("B", 3), closed: make(chan struct{})}
+	RegisterTest("v", func(ctx context.Context, d Destination) (Impl, error) { return impl, nil })
+	handler := func(n Notification) error {
+		h.Yield() // an application handler synchronises with the rest of the program: a scheduling point
+		if w.closeReturned {
+			w.afterClose++
+		}
+		if v, ok := n.(Update); ok {
+			h.Assert(v.Val.(int) > w.lastSeen, "C18: notifications reach the application in the order received")
+			w.lastSeen = v.Val.(int)
+		}
+		return nil
+	}
+	bc := &BaseClient{}
+	q := Query{Addrs: []string{"a"}, Target: "t", Queries: []Path{{"x"}}, NotificationHandler: handler}
+	q.Type = []Type{Stream, Once, Poll}[h.Range("qtype", 0, 2)]
+	subDone := make(chan error, 1)
+	w.sig = make(chan bool, 1)
+	go func() { subDone <- bc.Subscribe(context.Background(), q, "v") }()
+	<-w.sig // Close before the transport exists is refused (ErrClientInit): wait for the stream
+	h.Assert(bc.Close() == nil, "C18: Close of a subscribed client succeeds")
+	w.closeReturned = true
+	<-subDone
+	h.Assert(w.afterClose <= 1, "C18: after Close returns at most the notifications of one further received message are delivered")
 }
